@@ -9,6 +9,7 @@ import (
 	"os"
 	"os/exec"
 	"path/filepath"
+	"regexp"
 	"runtime"
 	"runtime/debug"
 	"sort"
@@ -437,7 +438,8 @@ type KnownFinding struct {
 	Property string `json:"property"`
 	Class    string `json:"class"`
 	Sig      string `json:"sig"`
-	Status   string `json:"status"` // known | fixed
+	SigRegex string `json:"sig_regex,omitempty"` // alternative to sig: anchored regular expression
+	Status   string `json:"status"`              // known | fixed
 	Commit   string `json:"commit,omitempty"`
 	What     string `json:"what"`
 }
@@ -569,7 +571,16 @@ func cmdRun(args []string) {
 	isKnown := func(v Violation) *KnownFinding {
 		for i := range kfs {
 			k := &kfs[i]
-			if k.Status == "known" && k.Property == v.Property && k.Class == v.Class && k.Sig == v.Sig {
+			if k.Status != "known" || k.Property != v.Property || k.Class != v.Class {
+				continue
+			}
+			if k.SigRegex != "" {
+				if re, err := regexp.Compile("^(?:" + k.SigRegex + ")$"); err == nil && re.MatchString(v.Sig) {
+					return k
+				}
+				continue
+			}
+			if k.Sig == v.Sig {
 				return k
 			}
 		}
@@ -642,25 +653,25 @@ func writeEvidence(p Property, path, tier string, seed uint64, t *WorkerReport, 
 		stepsPerRun = float64(t.Steps) / float64(t.SimRuns)
 	}
 	cov := map[string]any{
-		"evaluations":              t.Cases,
-		"distinct_nontrivial":      distinct,
-		"rule":                     meta.Rule,
-		"samples":                  t.Samples,
-		"simulated_runs":           t.SimRuns,
-		"cases_per_hour":           int64(perHour),
-		"seeds_per_hour":           int64(perHour),
-		"simulated_time":           fmt.Sprintf("%d scheduler steps in total (the system has no clock; simulated time is the logical step counter), %.1f per simulated run", t.Steps, stepsPerRun),
-		"simulated_steps_total":    t.Steps,
-		"fault_kinds_fired":        faults,
-		"probes":                   probes,
-		"distinct_measure":         "distinct (program, schedule-trace) pairs among non-trivial cases; a trace id is the FNV-1a hash of the sequence of scheduling decisions (task, operation, object ordinal)",
-		"real_components":          meta.Real,
-		"stub_components":          meta.Stub,
-		"instrumentation":          instr,
-		"worker_processes":         workers,
-		"known_findings_matched":   known,
-		"exhaustive":               false,
-		"nontrivial_cases":         t.NonTrivial,
+		"evaluations":            t.Cases,
+		"distinct_nontrivial":    distinct,
+		"rule":                   meta.Rule,
+		"samples":                t.Samples,
+		"simulated_runs":         t.SimRuns,
+		"cases_per_hour":         int64(perHour),
+		"seeds_per_hour":         int64(perHour),
+		"simulated_time":         fmt.Sprintf("%d scheduler steps in total (the system has no clock; simulated time is the logical step counter), %.1f per simulated run", t.Steps, stepsPerRun),
+		"simulated_steps_total":  t.Steps,
+		"fault_kinds_fired":      faults,
+		"probes":                 probes,
+		"distinct_measure":       "distinct (program, schedule-trace) pairs among non-trivial cases; a trace id is the FNV-1a hash of the sequence of scheduling decisions (task, operation, object ordinal)",
+		"real_components":        meta.Real,
+		"stub_components":        meta.Stub,
+		"instrumentation":        instr,
+		"worker_processes":       workers,
+		"known_findings_matched": known,
+		"exhaustive":             false,
+		"nontrivial_cases":       t.NonTrivial,
 	}
 	ev := map[string]any{
 		"property_id": p.ID(),
